@@ -290,6 +290,16 @@ def main(pid, tier):
                     v = res[k]
                     if not (isinstance(v, list) and len(v) == len(e.value) and all(isinstance(x, dict) for x in v)):
                         fails.append(('convert', 'sequence %s extracted as %r' % (k, type(v))))
+            # a parseable CSA image header in whatever slot its private creator reserves: routed to the CsaImage translator
+            if any(t.name == 'CsaImage' for t in ex.translators):
+                for e in ds:
+                    if e.tag.group == 0x0029 and e.tag.elem in (0x10, 0x20) and e.value == 'SIEMENS CSA HEADER':
+                        de = ds.get((0x0029, (e.tag.elem << 8) | 0x10))
+                        if de is not None and isinstance(de.value, bytes) and de.value[:4] == b'SV10':
+                            if res.get('CsaImage.EchoLinePosition') != 64 or res.get('CsaImage.ProtocolSliceNumber') != 3:
+                                fails.append(('translator_routing', 'CSA image header under the creator in slot %#x: CsaImage.EchoLinePosition = %r, '
+                                              'CsaImage.ProtocolSliceNumber = %r, the header says 64 and 3' % (
+                                                  e.tag.elem, res.get('CsaImage.EchoLinePosition'), res.get('CsaImage.ProtocolSliceNumber'))))
             # binary VRs: the text of the bytes when all of them are printable ASCII, nothing otherwise
             for e in ds:
                 if e.VR in ('OB', 'OW', 'UN', 'OF', 'OD') and e.tag.group % 2 == 0 and isinstance(e.value, bytes) and e.value \
